@@ -527,7 +527,7 @@ void fp12_write_bin(uint8_t *bin, size_t len, const fp12_t a, int pack) {
 	RLC_TRY {
 		fp12_new(t);
 
-		if (pack) {
+		if (pack && fp12_test_cyc(a)) {
 			if (len != 8 * RLC_FP_BYTES) {
 				RLC_THROW(ERR_NO_BUFFER);
 			}
